@@ -98,7 +98,7 @@ SetStateI(i, j) == SetState(i, j) /\ ISetState(i, j)
 SetParamsI(i, p) == SetParams(i, p) /\ ISetParams(i, p)
 PickleBI == PickleB /\ Keep
 NextI == \/ \E p \in Deltas : UpdateI(p)
-         \/ (Rich /\ \E p \in Singles \cup {NoP} : ResetI(p))
+         \/ \E p \in (IF Rich THEN Singles \cup {NoP} ELSE {}) : ResetI(p)
          \/ \E i \in Inst : \/ \E ov \in Overrides : BuildI(i, ov)
                             \/ \E d \in Data : TrainI(i, d) \/ ApplyI(i, d)
                             \/ GetStateI(i) \/ SetEmptyI(i) \/ PickleI(i)
